@@ -184,6 +184,8 @@ def convert_each_once(S, cfg):
                 for key in list(bc):
                     bc[key] = _leaf(S, f'Assign[{k}].{key}')
         data['Assignment'] = parsed
+    if cfg.get('no_interval'):
+        data['Setup']['Dump']['interval'] = None        # not given by the user
     before = copy.deepcopy(data) if S.mode != 'sym' else _copy_tree(data)
     inp.data = data
     # same order as DASSH_Input.__init__: temperature differences become outlet temperatures (in the user's
@@ -222,6 +224,9 @@ def convert_each_once(S, cfg):
             S.eq(f'convert.flow_once[{path}]', v1 * tfac, v0 * mfac)
         else:
             S.eq(f'convert.unchanged[{path}]', v1, v0)
+    if cfg.get('no_interval'):
+        # a default the reader fills in is part of the internal SI data: the same in every unit system
+        S.holds('convert.default_dump_interval_same_in_every_unit_system', inp.data['Setup']['Dump']['interval'] == 0.01)
     S.eq('canary.inlet_unconverted', after['Core.coolant_inlet_temp'] + (0 if units['temperature'] != 'kelvin' else 1),
          orig['Core.coolant_inlet_temp'], canary=True)
 convert_each_once.cname = 'DASSH_Input.convert_units'
@@ -253,4 +258,6 @@ def configs(tier):
         out.append((convert_each_once, dict(temperature=t, length=l, mfr=m, pin='FuelModel' if i % 2 == 0 else 'PinModel')))
     for t, l, m in (('celsius', 'cm', 'kg/min'), ('fahrenheit', 'ft', 'lb/hr'), ('kelvin', 'm', 'kg/s')):
         out.append((convert_each_once, dict(temperature=t, length=l, mfr=m, pin='FuelModel', parsed=True)))
+    for t, l, m in (('kelvin', 'm', 'kg/s'), ('kelvin', 'cm', 'kg/s'), ('celsius', 'm', 'lb/min'), ('fahrenheit', 'in', 'kg/hr')):
+        out.append((convert_each_once, dict(temperature=t, length=l, mfr=m, pin='PinModel', no_interval=True)))
     return out
